@@ -422,7 +422,7 @@ def instances():
         "C05": ["c15_table_sloppy_n8_k2", "c14_map_occ_replace_entry_with_n8"],
         "C09": ["c04_rehash_hook_drop_n4", "c02_zst_iterate_n8"],
         "C10": ["c02_zst_remove_n8", "c02_zst_retain_n8", "c02_zst_extract_if_n8"],
-        "C14": ["c04_replace_entry_validity_n8", "c07_elem_entry_n8"],
+        "C14": ["c04_replace_entry_validity_n8", "c07_elem_entry_n8", "c11_clone_n16_counts"],
         "C04": [],
     }
     # Core pack: the structural mechanisms every state-dependent property rests on (erase's tombstone decision,
